@@ -34,7 +34,7 @@ func init() {
 			"the RISC-V reference rv/ref.go (hand-written from the unprivileged ISA manual) is the specification; SC always succeeds, fence/fence.i/ecall/ebreak change nothing",
 			"fmt.Sprintf(\"x%d\") / (\"csr%d\") are injective and disjoint (register keys are compared structurally)",
 			"RV32: memory accesses that wrap around 2^32 are excluded by precondition (rv_nowrap)",
-			"exprtools gadgets are unfolded (their own contracts are property C11)",
+			"calls of exprtools gadgets are replaced by the gadgets' contracts (pkg/expr/exprtools/contracts_verif.go, proved per width under property C11); the gadgets' preconditions are obligations here",
 		},
 		Build: func(c *Ctx) []*vc.Unit {
 			useUninterpretedArith()
@@ -45,6 +45,7 @@ func init() {
 				e := e
 				us := &UnitSpec{Ctx: c, Name: name, Contract: ct, Enum: map[string]int64{}}
 				us.InstanceName = fmt.Sprintf("rv%d/%s/%s", e.XLen, e.Table, e.Name)
+				us.CallHook = c.gadgetHook("")
 				us.Inputs = func(p *sx.Path, ev *spec.Eval, fn *ssa.Function) map[string]sx.Val {
 					c.installRvBuiltins(ev)
 					st := newRvState(e.XLen, "")
@@ -53,6 +54,7 @@ func init() {
 					st.Word = word
 					st.PC = smt.Resize(addr, e.XLen)
 					p.Ghost["rv"] = st
+					p.Ghost["env"] = st.env()
 					return map[string]sx.Val{"o": e.Val, "i": c.rvInstructionValue(e, addr, word)}
 				}
 				units = append(units, us.Unit())
